@@ -1,4 +1,5 @@
 from . import family
+from ..rules import c14
 
 FAMS = {"div", "rem", "div_rem"}
 
@@ -10,10 +11,16 @@ def run(tier, t0):
         carry_prefixes=(),
         rule_text=("signed division in all flavours: (a) every quotient / remainder depends on the dividend and on the "
                    "divisor; (b) the is_some flag of Int's checked_div family depends on the divisor and, for signed / signed "
-                   "division, on the dividend (MIN / -1 does not fit)"),
+                   "division, on the dividend (MIN / -1 does not fit); (c) c14.remsign: the choice under which the remainder is "
+                   "negated is built from the dividend's sign alone in the truncating flavours and from the divisor's sign alone "
+                   "in the flooring flavours; (d) c14.remwidth: a remainder modulo an unsigned divisor of independent width is "
+                   "not reinterpreted as a signed integer of the divisor's width"),
         explanation=("structural necessary conditions of C14: a signed quotient or remainder that ignores an operand, and a "
                      "'none' report that ignores the divisor — or, for signed / signed division, the dividend, which alone "
-                     "distinguishes MIN / -1 — are wrong for some input. The sign conventions (truncating vs flooring, sign of "
-                     "the remainder), n = q*d + r and |r| < |d| are value relations and are not decided; forwarding and the "
-                     "div/rem projections are decided under C15"),
-        floors={"operations_checked_for_completeness": 40, "fallible_operations": 6})
+                     "distinguishes MIN / -1 — are wrong for some input; whose sign the remainder takes is decided by shape (c), "
+                     "and the representability of a mixed-width remainder by types (d). The quotient adjustment, n = q*d + r and "
+                     "|r| < |d| themselves are value relations and are not decided; forwarding and the div/rem projections are "
+                     "decided under C15"),
+        floors={"operations_checked_for_completeness": 40, "fallible_operations": 6, "signed_remainder_negations": 8,
+                "mixed_width_remainder_reinterpretations": 2},
+        extra=lambda f, rep, cfg: c14.run(f, rep, cfg))
